@@ -10,7 +10,7 @@ LABEL_PAIRS = [(a, b) for a in range(3) for b in range(3) if a != b]
 
 
 def run(tier):
-    shapes1 = [0, 4] if tier == 'quick' else [0, 1, 2, 3, 4]
+    shapes1 = [0, 3, 4] if tier == 'quick' else [0, 1, 2, 3, 4]
     p1 = [[s, k, x] for s in shapes1 for (k, x) in KX]
     if tier == 'quick':
         p2 = [[0, k1, k2, 0, 2, 0] for k1 in range(6) for k2 in range(6)]
@@ -30,7 +30,7 @@ def run(tier):
                            'thorough: shape 0 with all label pairs and n2; shape 2 with labels (T,a); all 36 kind pairs'),
                    functions=FUNCS),
         Obligation('rename_label', 'harness/c11.py', 'h_rename_label',
-                   partitions=[[s, x, sub] for s in ([0, 4] if tier == 'quick' else [0, 1, 2, 3, 4]) for x in range(2) for sub in range(3)],
+                   partitions=[[s, x, sub] for s in shapes1 for x in range(2) for sub in range(3)],
                    timeout=(400 if tier == 'quick' else 900),
                    what='RenameAppLabel with its optional arguments: legacy_app_label equal to the old label / absent / a different string; model_names absent / all models / only the first model of the app (the rest stays under the old label): every relation names its target under the label the target now lives under, the new app holds exactly the moved models, the old app disappears iff it is empty',
                    bounds='relation shapes as seq1; all label pairs and model names from the pools; 3 legacy choices x 3 model_names choices',
